@@ -67,6 +67,11 @@ impl Cfg {
         (total / self.shards as u64).max(1)
     }
 
+    /// The sample budget over all shards (not divided).
+    pub fn total(&self, quick: u64, thorough: u64) -> u64 {
+        self.budget.unwrap_or(if self.thorough { thorough } else { quick })
+    }
+
     pub fn rng(&self, stream: u64) -> vnet::Rng {
         vnet::Rng::derive(
             self.seed,
